@@ -16,4 +16,20 @@ MUTANTS = [
     (_T, '._unlink_tags', '                if not tids:\n                    # tid was last tensor -> delete entry\n                    del self.tag_map[tag]', '                if tids:\n                    # tid was last tensor -> delete entry\n                    del self.tag_map[tag]', 'expect-fail'),
     (_T, '._unlink_tags', '                tids.discard(tid)\n                if not tids:', '                tids.add(tid)\n                if not tids:', 'expect-fail'),
     (_T, '._unlink_tags', '                tids.discard(tid)\n                if not tids:', '                tids.discard(tid)\n                if len(tids) <= 1:', 'expect-fail'),
+    # ---- _link_inds
+    (_T, '._link_inds', '                self.ind_map[ind].add(tid)\n', '                pass\n', 'expect-fail'),
+    (_T, '._link_inds', '                self._outer_inds.discard(ind)\n                self._inner_inds.add(ind)\n', '                self._inner_inds.discard(ind)\n                self._outer_inds.add(ind)\n', 'expect-fail'),
+    (_T, '._link_inds', '                self._outer_inds.discard(ind)\n                self._inner_inds.add(ind)\n', '                self._inner_inds.add(ind)\n', 'expect-fail'),
+    (_T, '._link_inds', '                self.ind_map[ind] = oset((tid,))\n                self._outer_inds.add(ind)\n', '                self.ind_map[ind] = oset((tid,))\n                self._inner_inds.add(ind)\n', 'expect-fail'),
+    (_T, '._link_inds', '                self.ind_map[ind] = oset((tid,))\n                self._outer_inds.add(ind)\n', '                self.ind_map[ind] = oset((tid,))\n', 'expect-fail'),
+    (_T, '._link_inds', '            if ind in self.ind_map:\n                self.ind_map[ind].add(tid)', '            if ind in self._outer_inds:\n                self.ind_map[ind].add(tid)', 'expect-fail'),
+    # ---- _unlink_inds
+    (_T, '._unlink_inds', '                elif occurences == 1:', '                elif occurences <= 1:', 'benign'),
+    (_T, '._unlink_inds', '                elif occurences == 1:', '                elif occurences >= 1:', 'expect-fail'),
+    (_T, '._unlink_inds', '                if occurences == 0:', '                if occurences <= 1:', 'expect-fail'),
+    (_T, '._unlink_inds', '                    del self.ind_map[ind]\n                    self._outer_inds.discard(ind)\n', '                    self._outer_inds.discard(ind)\n', 'expect-fail'),
+    (_T, '._unlink_inds', '                    del self.ind_map[ind]\n                    self._outer_inds.discard(ind)\n', '                    del self.ind_map[ind]\n', 'expect-fail'),
+    (_T, '._unlink_inds', '                    self._inner_inds.discard(ind)\n                    self._outer_inds.add(ind)\n            except KeyError:\n                # tid already removed from x entry - e.g. repeated index\n                pass\n\n    def _reset', '                    self._outer_inds.discard(ind)\n                    self._inner_inds.add(ind)\n            except KeyError:\n                # tid already removed from x entry - e.g. repeated index\n                pass\n\n    def _reset', 'expect-fail'),
+    (_T, '._unlink_inds', '                tids.discard(tid)\n                occurences = len(tids)', '                occurences = len(tids)', 'expect-fail'),
+    (_T, '._unlink_inds', '                tids.discard(tid)\n                occurences = len(tids)', '                tids.discard(tid)\n                occurences = len(tids) - 1', 'expect-fail'),
 ]
